@@ -236,6 +236,10 @@ HOSTILE_LINES = [
     '[     0.001] {Default Queue} <ZZZ> wl_a#7.b()',
     '[1000.400] wl_registry@2.bind(1, 2, 3)',
     '[1000.400]  -> xdg_toplevel@9.set_title()',
+    # a time stamp too large for a double (inf), as first / middle / last line
+    '[' + '9' * 320 + '.000]  -> wl_display@1.sync(new id wl_callback@3)',
+    # a second connection whose message carries exactly the time stamp of another connection's message
+    '[1000.100] {Default Queue} <ZZZ> wl_display#1.get_registry(new id wl_registry#2)',
 ]
 
 
